@@ -202,6 +202,39 @@ def subterms(t):
             yield from subterms(x)
 
 
+def loaded_subterms(t):
+    """sub-terms whose VALUE is used when t is evaluated: like subterms, except that the operand of an address-of is not
+    loaded (&p[i] computes an address: p and i are used, p[i] is not read)"""
+    if not isinstance(t, tuple) or not t:
+        return
+    if not isinstance(t[0], str):
+        for x in t:
+            yield from loaded_subterms(x)
+        return
+    if t[0] == "addr":
+        yield t
+        lv = t[1]
+        while isinstance(lv, tuple) and lv and lv[0] in ("idx", "fld"):
+            if lv[0] == "idx":
+                yield from loaded_subterms(lv[2])
+                # the pointer that is subscripted is loaded when it is itself stored somewhere (a field, an element)
+                if lv[1][0] in ("fld", "idx"):
+                    pass
+            lv = lv[1]
+        if isinstance(lv, tuple) and lv and lv[0] not in ("idx", "fld"):
+            yield from loaded_subterms(lv)
+        return
+    yield t
+    if t[0] == "poly":
+        for m, _ in t[1]:
+            for x in m:
+                yield from loaded_subterms(x)
+        return
+    for x in t[1:]:
+        if isinstance(x, tuple):
+            yield from loaded_subterms(x)
+
+
 def atoms_top(t):
     """atoms occurring as factors of the monomials of t (not their sub-terms)"""
     out = set()
